@@ -81,6 +81,9 @@ def main() -> int:
     ap.add_argument("--also", action="store_true", help="also run the checks listed under 'also'")
     ap.add_argument("--all-checks", action="store_true", help="run every claimed check on every mutant")
     ap.add_argument("--seeded", action="store_true", help="include /verif/seeded/*/patch.diff")
+    ap.add_argument("--benign", action="store_true",
+                    help="run the SPECIFICITY catalogue instead (selftest/benign.py): property-"
+                         "preserving refactorings on which every claimed check must exit 0")
     ap.add_argument("--tier", default="quick")
     ap.add_argument("--seed", type=int, default=0)
     ap.add_argument("--out", default=os.path.join(ROOT, "selftest", "mutants_report.json"))
@@ -89,6 +92,13 @@ def main() -> int:
     from selftest.mutants import M
 
     items = [dict(m, kind="catalogue") for m in M]
+    if a.benign:
+        from selftest.benign import B
+
+        items = [dict(m, kind="catalogue") for m in B]
+        a.all_checks = True
+        if a.out.endswith("mutants_report.json"):
+            a.out = os.path.join(ROOT, "selftest", "benign_report.json")
     if a.seeded:
         sd = os.path.join(ROOT, "seeded")
         for name in sorted(os.listdir(sd)):
@@ -121,6 +131,8 @@ def main() -> int:
                 props += [p for p in m["also"] if p in claimed]
             if a.all_checks:
                 props = [m["expect"]] + [p for p in claimed if p != m["expect"]]
+            if a.benign:
+                props = list(claimed)
             rec["checks"] = {}
             for prop in props:
                 if prop not in claimed:
@@ -134,6 +146,20 @@ def main() -> int:
                                        "candidate": cand[0][:300] if cand else None}
                 if rc not in (0, 1):
                     rec["checks"][prop]["tail"] = out[-1500:]
+            if a.benign:
+                alarms = {p: r["exit"] for p, r in rec["checks"].items() if r["exit"] != 0}
+                rec["false_alarms"] = alarms
+                ok = not alarms and (a.skip_suite or rec.get("suite_green"))
+                if not ok:
+                    bad += 1
+                print(f"{'SILENT' if not alarms else 'FALSE-ALARM':12s} {m['name']:55s} "
+                      f"alarms={alarms} {rec.get('suite', '')}", flush=True)
+                for p, r in rec["checks"].items():
+                    if r["exit"] != 0:
+                        print(f"    {p}: exit {r['exit']} {r.get('candidate') or ''} "
+                              f"{(r.get('tail') or '')[-600:]}", flush=True)
+                report.append(rec)
+                continue
             detected = rec["checks"].get(m["expect"], {}).get("exit") == 1
             rec["detected"] = detected
             status = "DETECTED" if detected else "MISSED"
